@@ -172,7 +172,8 @@ def run_impl(M, which, existing, reqs):
         def f():
             sec = ed.add_switches(objs, M["RichSwnmSection"](_switches=ex))
             by_name = {s.custom_name.value: s.index for s in sec.switches if s.custom_name.value.startswith("n")}
-            return [([1, by_name[o.custom_name.value]] if o.custom_name.value in by_name else [0]) for o in objs], \
+            ordered = [o for r, o in zip(reqs, objs) if r[0] == "carry"] + [o for r, o in zip(reqs, objs) if r[0] != "carry"]
+            return [([1, by_name[o.custom_name.value]] if o.custom_name.value in by_name else [0]) for o in ordered], \
                    [s.index for s in sec.switches]
     else:
         objs = [M["RichSwitch"](M["RichString"](f"e{r[1]}" if (r[0] == "carry" and r[1] in existing) else f"n{nxt()}"),
@@ -202,7 +203,7 @@ def run_impl(M, which, existing, reqs):
 def oracle(which, existing, reqs, res, final):
     """the property on the implementation's result"""
     lo, hi, reserved = TABLES[which]
-    order = carried_first(reqs) if which in (1, 2) else reqs
+    order = carried_first(reqs) if which in (1, 2, 4) else reqs
     free = [i for i in range(lo, hi + 1) if i not in existing and i not in reserved]
     n_fresh = sum(1 for r in reqs if r[0] == "fresh")
     if res[0] == 0:
@@ -223,7 +224,14 @@ def oracle(which, existing, reqs, res, final):
     placed = [o[1] for o in outs if o[0] == 1]
     if len(set(placed)) != len(placed):
         return f"one slot given to two objects: {placed}"
+    seen_carried = set()
     for r, o in zip(order, outs):
+        if r[0] == "carry" and which != 5:
+            # an object that carries a free index of the table keeps it, however full the table is and in whatever
+            # order the batch is walked (the first object carrying that index, when several do)
+            if r[1] not in existing and lo <= r[1] <= hi and r[1] not in seen_carried and o != [1, r[1]]:
+                return f"object carrying the free index {r[1]} was not placed there (got {o})"
+            seen_carried.add(r[1])
         if r[0] == "carry":
             if o[0] == 1 and o[1] != r[1]:
                 return f"object carrying index {r[1]} was moved to {o[1]}"
